@@ -2,6 +2,7 @@
 // Workload shared by the structural checks (C02, C04, C05, C08, C12, C15...): corpus + catalogue + random programs.
 const corpus = require('./corpus')
 const execwork = require('./execwork')
+const gsplice = require('./gen_splice')
 const { Rng, chunk } = require('./util')
 const { SETS, NAMES } = require('./cfgset')
 
@@ -23,6 +24,11 @@ function plan (ctx, o = {}) {
     rng.sample(files, Math.ceil(n / 5)).forEach((f, i) => picks.push({ name: f.name, kind: f.kind, cfg: cfgNames[(i + 1 + ctx.seed) % cfgNames.length], eol: 'crlf' }))
   }
   for (const c of chunk(picks, o.corpusPerShard || 25)) shards.push({ kind: 'corpus', items: c })
+  // corpus files with enabled operations spliced onto random expression nodes (structural / compile-only monitors)
+  if (o.splice !== false) {
+    const nSplice = ctx.tier === 'thorough' ? (o.thoroughSplice || 6000) : (o.quickSplice === undefined ? 240 : o.quickSplice)
+    for (let k = 0; k < Math.ceil(nSplice / 60); k++) shards.push({ kind: 'splice', count: Math.min(60, nSplice - k * 60), stream: k, cfgNames })
+  }
   if (o.generated !== false) {
     for (const s of execwork.plan(ctx, Object.assign({ quickRandom: 500, thoroughRandom: 10000, cfgNames }, o.exec || {}))) shards.push(s)
   }
@@ -39,6 +45,14 @@ function jobs (spec, ctx) {
       cfgKey: it.cfg,
       cfgName: it.cfg
     }))
+  }
+  if (spec.kind === 'splice') {
+    const rng = new Rng(ctx.seed, 'splice', ctx.id, spec.stream)
+    const names = spec.cfgNames || NAMES
+    return gsplice.splice(rng, corpus.list(), spec.count).map((p, i) => {
+      const cn = names[(i + spec.stream) % names.length]
+      return { code: p.code, file: '/app/lib/' + p.meta.name, meta: p.meta, config: SETS[cn], cfgKey: cn, cfgName: cn }
+    })
   }
   return execwork.jobs(spec, ctx)
 }
